@@ -206,7 +206,9 @@ def finish (st : St) : List String :=
     | .error e => [s!"R oracle|*|cannot read the S-expression: {e}", "E"]
     | .ok src =>
       let r := src.check st.opq st.ext
-      let rl := r.findings.map fun f => s!"R {f.cls}|{f.modName}|{f.msg}"
+      -- hypothesis of `BMV.Props.C18.wf_total` / `elab_sigs_in_range`, re-checked on every file set
+      let pre := if src.fromReader then [] else ["R internal|*|the parsed file set contains an elaborated `.sig` node (Source.fromReader = false)"]
+      let rl := pre ++ r.findings.map fun f => s!"R {f.cls}|{f.modName}|{f.msg}"
       let nl := s!"N modules={src.modules.length} elaborated={r.elaborated} roots={",".intercalate r.roots}"
       let sl := match st.facts with
         | none => ["S skip no-facts"]
